@@ -1,5 +1,6 @@
 import UberjobModel.Lemmas.EnginePath
 import UberjobModel.Lemmas.GraphWF
+import UberjobModel.Lemmas.EngineExamples
 /-!
 # C01 — a call never starts before everything it depends on has finished successfully
 
@@ -38,17 +39,7 @@ theorem C01_counter {g : Graph} (hg : g.WF) {cfg : Cfg} {s : St} (h : Reach g cf
     ∀ y, 2 ≤ g.predCount y → s.rem y + s.rel.countP (fun e => e.2 == y) = g.predCount y :=
   (inv_reach hg h).remOk
 
-/-! Non-vacuity: the diamond 0 → {1,2} → 3 with a parallel edge 1 ⇉ 3, two workers; a complete
-    schedule is accepted by `step?` and begins node 3 last. -/
-def diamond : Graph := Graph.ofEdges [0, 1, 2, 3] [(0, 1), (0, 2), (1, 3), (1, 3), (2, 3)]
-
-def diamondRun : List Label :=
-  [.spawn, .spawn, .get 0 (.node 0), .check 0, .finOk 0, .release 0 1, .release 0 2, .taskDone 0,
-   .get 0 (.node 1), .get 1 (.node 2), .check 0, .check 1, .finOk 1, .finOk 0,
-   .release 1 3, .release 0 3, .taskDone 0, .taskDone 1, .get 1 (.node 3), .check 1, .finOk 1, .taskDone 1,
-   .joinReturn, .setStop, .putDone, .putDone, .get 0 .done, .get 1 .done, .check 0, .check 1,
-   .taskDone 0, .taskDone 1, .joined]
-
+/-! Non-vacuity: see `Lemmas/EngineExamples.lean` for the diamond with a parallel edge. -/
 example : ((run? diamond ⟨2, some 0⟩ (init diamond) diamondRun).map (·.begun)) = some [0, 1, 2, 3] := by
   decide
 example : diamond.WF := ofEdges_wf _ _
